@@ -4,7 +4,8 @@
 From Coq Require Import List Arith Bool Reals.
 From TLV Require Import Base.Ops Base.Tensor Base.RSum Model.Svd Proofs.SvdProofsAux Proofs.SvdProofs
   Proofs.SvdNNProofs Proofs.SvdSymeigProofs Proofs.SvdRandProofs Proofs.SvdInterfaceProofs
-  Proofs.SvdGramProofs Proofs.SvdSymeigFull Proofs.SvdMaskProofs Proofs.SvdDecisions.
+  Proofs.SvdGramProofs Proofs.SvdSymeigFull Proofs.SvdMaskProofs Proofs.SvdDecisions
+  Proofs.SvdWitness Proofs.SvdSymeigShapes.
 Import ListNotations.
 Local Open Scope nat_scope.
 
@@ -168,33 +169,50 @@ Theorem C05_mmul_entries : forall (n : nat) (X Y : list (list R)) (i j m : nat),
 Proof. exact mg_mmul. Qed.
 Print Assumptions C05_mmul_entries.
 
-(* --- svd_interface: dispatch, and the end-to-end statement for method = truncated_svd --- *)
-Theorem C05_interface_dispatch : forall (f : nat -> list (list R) -> triple R) meth d2 Ml n flip ub iters sq eps,
-  meth <> MUnknown ->
-  svd_interface Rops f meth d2 Ml n flip ub None None iters sq eps =
-  Ok (let '(U0, S0, V0) := f 0 Ml in
+(* --- svd_interface: the dispatch table (method name -> function run) is part of the model; the end-to-end statement for
+       method = truncated_svd.  funs is the table of functions of this request: only its FTruncated member is constrained,
+       the members behind the other method names are arbitrary --- *)
+Theorem C05_dispatch_table :
+  dispatch MTruncated = Some FTruncated /\ dispatch MSymeig = Some FSymeig /\ dispatch MRandomized = Some FRandomized /\
+  dispatch MCallable = Some FUser /\ dispatch MUnknown = None.
+Proof. exact dispatch_table. Qed.
+Print Assumptions C05_dispatch_table.
+
+(* definitional: without mask / non_negative the selected function runs once and its answer is sign-flipped iff flip_sign *)
+Theorem C05_interface_dispatch : forall (funs : fname -> nat -> list (list R) -> triple R) meth fn d2 Ml n flip ub iters sq eps,
+  dispatch meth = Some fn ->
+  svd_interface Rops funs meth d2 Ml n flip ub None None iters sq eps =
+  Ok (let '(U0, S0, V0) := funs fn 0 Ml in
       let '(U, V) := if flip then svd_flip Rops U0 V0 ub else (U0, V0) in (U, S0, V)).
 Proof. exact interface_unfold. Qed.
 Print Assumptions C05_interface_dispatch.
 
-Theorem C05_interface_unknown_rejected : forall (f : nat -> list (list R) -> triple R) d2 Ml n flip ub nn mask iters sq eps,
-  svd_interface Rops f MUnknown d2 Ml n flip ub nn mask iters sq eps = Err.
+(* only the selected function is consulted (any mask / non_negative setting) *)
+Theorem C05_interface_only_selected : forall (funs funs' : fname -> nat -> list (list R) -> triple R) meth fn d2 Ml n flip ub nn mask iters sq eps,
+  dispatch meth = Some fn -> (forall c X, funs fn c X = funs' fn c X) ->
+  svd_interface Rops funs meth d2 Ml n flip ub nn mask iters sq eps = svd_interface Rops funs' meth d2 Ml n flip ub nn mask iters sq eps.
+Proof. exact interface_only_selected. Qed.
+Print Assumptions C05_interface_only_selected.
+
+Theorem C05_interface_unknown_rejected : forall (funs : fname -> nat -> list (list R) -> triple R) d2 Ml n flip ub nn mask iters sq eps,
+  svd_interface Rops funs MUnknown d2 Ml n flip ub nn mask iters sq eps = Err.
 Proof. exact interface_unknown. Qed.
 Print Assumptions C05_interface_unknown_rejected.
 
-(* every matrix shape, every 1 <= n_eigenvecs <= min(shape), flip_sign off / U-based / V-based, any LAPACK answer meeting
-   the SVD contract: the triple returned by svd_interface has S = the leading singular values (non-negative,
-   non-increasing), orthonormal U columns / V rows, and error = the discarded squared singular values *)
-Theorem C05_interface_truncated_e2e : forall (oracle : bool -> triple R) d1 d2 (Mf : nat -> nat -> R) (Ml : list (list R))
-    r flip ub iters sq eps U S V,
-  (forall f, svd_contract d1 d2 Mf f (oracle f)) ->
+(* every matrix shape, every 1 <= n_eigenvecs <= min(shape), flip_sign off / U-based / V-based; orc X f = LAPACK's answer on X
+   with full_matrices = f, constrained by the SVD contract on the matrix Ml that svd_interface is given: the returned triple
+   has S = the leading singular values (non-negative, non-increasing), orthonormal U columns / V rows, and error = the
+   discarded squared singular values *)
+Theorem C05_interface_truncated_e2e : forall (orc : list (list R) -> bool -> triple R) (funs : fname -> nat -> list (list R) -> triple R)
+    d1 d2 (Ml : list (list R)) r flip ub iters sq eps U S V,
+  (forall f, svd_contract d1 d2 (mget Rops Ml) f (orc Ml f)) ->
+  (forall c X, funs FTruncated c X = truncated_svd (orc X) d1 d2 (Some r)) ->
   1 <= r <= Nat.min d1 d2 ->
-  svd_interface Rops (fun _ _ => truncated_svd oracle d1 d2 (Some r)) MTruncated d2 Ml (Some r) flip ub None None iters sq eps
-    = Ok (U, S, V) ->
-  S = firstn r (snd (fst (oracle false))) /\ nonneg_list S /\ nonincreasing S /\
+  svd_interface Rops funs MTruncated d2 Ml (Some r) flip ub None None iters sq eps = Ok (U, S, V) ->
+  S = firstn r (snd (fst (orc Ml false))) /\ nonneg_list S /\ nonincreasing S /\
   orthonormal_cols d1 r (mget Rops U) /\ orthonormal_rows r d2 (mget Rops V) /\
-  rsum d1 (fun i => rsum d2 (fun j => ((Mf i j - recon U S V i j)^2)%R))
-    = rsum (Nat.min d1 d2 - r) (fun t => ((nth (r + t) (snd (fst (oracle false))) 0)^2)%R).
+  rsum d1 (fun i => rsum d2 (fun j => ((mget Rops Ml i j - recon U S V i j)^2)%R))
+    = rsum (Nat.min d1 d2 - r) (fun t => ((nth (r + t) (snd (fst (orc Ml false))) 0)^2)%R).
 Proof. exact interface_truncated_e2e. Qed.
 Print Assumptions C05_interface_truncated_e2e.
 
@@ -263,16 +281,16 @@ Proof. exact flip_orthonormal_gen. Qed.
 Print Assumptions C05_flip_orthonormal_gen.
 
 (* --- end to end through svd_interface(method = truncated_svd) for EVERY n_eigenvecs (None, 0, > min(shape), > max(shape)) --- *)
-Theorem C05_interface_truncated_e2e_gen : forall (oracle : bool -> triple R) d1 d2 (Mf : nat -> nat -> R) (Ml : list (list R))
-    n flip ub iters sq eps U Sg V,
-  (forall f, svd_contract d1 d2 Mf f (oracle f)) -> 1 <= d1 ->
-  svd_interface Rops (fun _ _ => truncated_svd oracle d1 d2 n) MTruncated d2 Ml n flip ub None None iters sq eps
-    = Ok (U, Sg, V) ->
+Theorem C05_interface_truncated_e2e_gen : forall (orc : list (list R) -> bool -> triple R) (funs : fname -> nat -> list (list R) -> triple R)
+    d1 d2 (Ml : list (list R)) n flip ub iters sq eps U Sg V,
+  (forall f, svd_contract d1 d2 (mget Rops Ml) f (orc Ml f)) ->
+  (forall c X, funs FTruncated c X = truncated_svd (orc X) d1 d2 n) -> 1 <= d1 ->
+  svd_interface Rops funs MTruncated d2 Ml n flip ub None None iters sq eps = Ok (U, Sg, V) ->
   let k := n_kept d1 d2 n in
-  let So := snd (fst (oracle (full_flag d1 d2 n))) in
+  let So := snd (fst (orc Ml (full_flag d1 d2 n))) in
   Sg = firstn k So /\ nonneg_list Sg /\ nonincreasing Sg /\
   orthonormal_cols d1 (Nat.min k d1) (mget Rops U) /\ orthonormal_rows (Nat.min k d2) d2 (mget Rops V) /\
-  rsum d1 (fun i => rsum d2 (fun j => ((Mf i j - recon U Sg V i j)^2)%R))
+  rsum d1 (fun i => rsum d2 (fun j => ((mget Rops Ml i j - recon U Sg V i j)^2)%R))
     = rsum (Nat.min d1 d2 - k) (fun t => ((nth (k + t) So 0)^2)%R).
 Proof. exact interface_truncated_e2e_gen. Qed.
 Print Assumptions C05_interface_truncated_e2e_gen.
@@ -283,10 +301,12 @@ Theorem C05_interface_best_approx_partial : forall (d1 d2 : nat) (Mf : nat -> na
   (forall (s : list R) (U V : list (list R)), svd_contract d1 d2 Mf false (U, s, V) ->
      forall k B, rank_le d1 d2 k B ->
      (rsum (Nat.min d1 d2 - k) (fun t => ((nth (k + t) s 0)^2)%R) <= frob2 d1 d2 (fun i j => (Mf i j - B i j)%R))%R) ->
-  forall (oracle : bool -> triple R) (Ml : list (list R)) r flip ub iters sq eps U Sg V,
-  (forall f, svd_contract d1 d2 Mf f (oracle f)) -> 1 <= r <= Nat.min d1 d2 ->
-  svd_interface Rops (fun _ _ => truncated_svd oracle d1 d2 (Some r)) MTruncated d2 Ml (Some r) flip ub None None iters sq eps
-    = Ok (U, Sg, V) ->
+  forall (orc : list (list R) -> bool -> triple R) (funs : fname -> nat -> list (list R) -> triple R)
+         (Ml : list (list R)) r flip ub iters sq eps U Sg V,
+  Mf = mget Rops Ml ->
+  (forall f, svd_contract d1 d2 (mget Rops Ml) f (orc Ml f)) ->
+  (forall c X, funs FTruncated c X = truncated_svd (orc X) d1 d2 (Some r)) -> 1 <= r <= Nat.min d1 d2 ->
+  svd_interface Rops funs MTruncated d2 Ml (Some r) flip ub None None iters sq eps = Ok (U, Sg, V) ->
   rank_le d1 d2 r (recon U Sg V) /\
   forall B, rank_le d1 d2 r B ->
     (frob2 d1 d2 (fun i j => (Mf i j - recon U Sg V i j)%R) <= frob2 d1 d2 (fun i j => (Mf i j - B i j)%R))%R.
@@ -315,13 +335,13 @@ Theorem C05_mask_loop_spec : forall d1 d2 (svd_fun : nat -> list (list R) -> tri
 Proof. exact mask_loop_spec. Qed.
 Print Assumptions C05_mask_loop_spec.
 
-Theorem C05_interface_masked_e2e : forall (orc : nat -> list (list R) -> bool -> triple R) d1 d2 (Ml mask : list (list R))
-    r flip ub iters sq eps U Sg V,
+Theorem C05_interface_masked_e2e : forall (orc : nat -> list (list R) -> bool -> triple R) (funs : fname -> nat -> list (list R) -> triple R)
+    d1 d2 (Ml mask : list (list R)) r flip ub iters sq eps U Sg V,
   rect d1 d2 Ml -> rect d1 d2 mask ->
   (forall c X, rect d1 d2 X -> forall f, svd_contract d1 d2 (mget Rops X) f (orc c X f)) ->
+  (forall c X, funs FTruncated c X = truncated_svd (orc c X) d1 d2 (Some r)) ->
   1 <= r <= Nat.min d1 d2 -> 1 <= iters ->
-  svd_interface Rops (fun c X => truncated_svd (orc c X) d1 d2 (Some r)) MTruncated d2 Ml (Some r) flip ub None (Some mask) iters sq eps
-    = Ok (U, Sg, V) ->
+  svd_interface Rops funs MTruncated d2 Ml (Some r) flip ub None (Some mask) iters sq eps = Ok (U, Sg, V) ->
   exists Mlast c,
     rect d1 d2 Mlast /\
     (forall i j, i < d1 -> j < d2 -> mget Rops mask i j = 1%R -> mget Rops Mlast i j = mget Rops Ml i j) /\
@@ -381,3 +401,41 @@ Theorem C05_symeig_svd_factored : forall (F : Type) (Op : fops F) eigh sq eps (M
   (map (firstn b1) (map (@rev F) U), firstn b2 (rev Sg), firstn b3 (rev (transp Op c V))).
 Proof. exact @symeig_svd_factored. Qed.
 Print Assumptions C05_symeig_svd_factored.
+
+(* ================= round 4 (review r1) ================= *)
+(* --- the SVD contract is satisfiable for BOTH values of full_matrices with different answers (2 x 1 and 1 x 2 matrices with
+       their exact SVDs), and the hypotheses of the end-to-end theorems are discharged jointly on them, whatever functions
+       stand behind the other method names; last Example: the conclusion of C05_interface_truncated_e2e_gen on the instance --- *)
+Example C05_contract_satisfiable :
+  (forall f, svd_contract 2 1 (mget Rops Mtall) f (orc_tall Mtall f)) /\ (forall f, svd_contract 1 2 (mget Rops Mwide) f (orc_wide Mwide f)) /\
+  orc_tall Mtall true <> orc_tall Mtall false /\ orc_wide Mwide true <> orc_wide Mwide false.
+Proof. exact (conj contract_tall (conj contract_wide answers_differ)). Qed.
+
+Example C05_e2e_hyps_tall : forall (sy ra us : nat -> list (list R) -> triple R) (sq : R -> R) (eps : R),
+  let funs n := svd_funs (fun _ X => truncated_svd (orc_tall X) 2 1 n) sy ra us in
+  (forall f, svd_contract 2 1 (mget Rops Mtall) f (orc_tall Mtall f)) /\
+  (forall n c X, funs n FTruncated c X = truncated_svd (orc_tall X) 2 1 n) /\ 1 <= 2 /\ 1 <= 1 <= Nat.min 2 1 /\
+  svd_interface Rops (funs None) MTruncated 1 Mtall None false true None None 0 sq eps = Ok ([[1; 0]; [0; 1]], [2], [[1]])%R /\
+  svd_interface Rops (funs (Some 1)) MTruncated 1 Mtall (Some 1) false true None None 0 sq eps = Ok ([[1]; [0]], [2], [[1]])%R.
+Proof. exact e2e_hyps_tall. Qed.
+
+Example C05_e2e_hyps_wide : forall (sy ra us : nat -> list (list R) -> triple R) (sq : R -> R) (eps : R),
+  let funs n := svd_funs (fun _ X => truncated_svd (orc_wide X) 1 2 n) sy ra us in
+  (forall f, svd_contract 1 2 (mget Rops Mwide) f (orc_wide Mwide f)) /\
+  (forall n c X, funs n FTruncated c X = truncated_svd (orc_wide X) 1 2 n) /\ 1 <= 1 /\
+  svd_interface Rops (funs None) MTruncated 2 Mwide None false true None None 0 sq eps = Ok ([[1]], [2], [[1; 0]; [0; 1]])%R.
+Proof. exact e2e_hyps_wide. Qed.
+
+Example C05_e2e_gen_on_tall : forall (sy ra us : nat -> list (list R) -> triple R) (sq : R -> R) (eps : R),
+  orthonormal_cols 2 2 (mget Rops [[1; 0]; [0; 1]]%R) /\ orthonormal_rows 1 1 (mget Rops [[1%R]]) /\
+  rsum 2 (fun i => rsum 1 (fun j => ((mget Rops Mtall i j - recon [[1; 0]; [0; 1]] [2] [[1]] i j)^2)%R)) = 0%R.
+Proof. exact e2e_gen_on_tall. Qed.
+
+(* --- output shapes of symeig_svd for every shape and n_eigenvecs, given only the shapes of eigh's answer --- *)
+Theorem C05_symeig_shapes : forall (eigh : list (list R) -> list R * list (list R)) (sq : R -> R) eps (M : list (list R)) d1 d2 n,
+  rect d1 d2 M ->
+  (forall G, let d := if d2 <? d1 then d1 else d2 in length (fst (eigh G)) = d /\ rect d d (snd (eigh G))) ->
+  let k := n_kept d1 d2 n in
+  shape3 (symeig_svd Rops eigh sq eps M d1 d2 n) d1 (Nat.min d1 k) (Nat.min (Nat.min d1 d2) k) (Nat.min d2 k) d2.
+Proof. exact symeig_shapes. Qed.
+Print Assumptions C05_symeig_shapes.
